@@ -65,6 +65,33 @@ static void write_result(vj::W& w, Arch arch, const BaseInst& inst, const Operan
 // x86
 // ---------------------------------------------------------------------------------------------------------------
 static long g_n = 0, g_valid = 0;
+static vj::Rng* g_rng = nullptr;
+static const char* g_dim = "base";      // which sweep dimension produced the request: base | imm | bid
+
+// the real assembler, one per mode: the request is also EMITTED so that the spec can judge the reported features against the
+// encoding the library actually produces ("ae" assembler error, "b" bytes)
+struct AsmMode {
+  CodeHolder code; x86::Assembler* a = nullptr; Environment env;
+  void init(int bits) { env = Environment(bits == 64 ? Arch::kX64 : Arch::kX86); reset(); }
+  void reset() { delete a; code.reset(); code.init(env); a = new x86::Assembler(&code); }
+};
+static AsmMode g_asm64, g_asm32;
+
+static void write_emitted(vj::W& w, const Inst& in, InstId id, const Operand_* ops, size_t n) {
+  AsmMode& md = in.m == 64 ? g_asm64 : g_asm32;
+  if (!md.a) md.init(in.m);
+  if (md.code.text_section()->buffer().size() > (8u << 20)) md.reset();
+  x86::Assembler& a = *md.a;
+  a.set_inst_options(inst_options(in));
+  if (in.k) a.set_extra_reg(x86::k(in.k)); else a.reset_extra_reg();
+  size_t before = a.offset();
+  Error e = a.emit_op_array(id, ops, n);
+  size_t after = a.offset();
+  a.reset_inst_options(); a.reset_extra_reg();
+  w.kv("ae", (long long)uint32_t(e));
+  const uint8_t* p = md.code.text_section()->buffer().data();
+  w.key("b").beginArr(); for (size_t x = before; x < after && x < before + 15; x++) w.val(int(p[x])); w.endArr();
+}
 
 static void query_x86(const Inst& in, FILE* out) {
   Arch arch = in.m == 64 ? Arch::kX64 : Arch::kX86;
@@ -79,7 +106,9 @@ static void query_x86(const Inst& in, FILE* out) {
   vj::W w;
   w.beginObj();
   write_request(w, in);
+  w.kv("dim", g_dim);
   write_result(w, arch, inst, ops, n);
+  write_emitted(w, in, id, ops, n);
   w.endObj();
   g_n++;
   if (w.s.find("\"val\":0,") != std::string::npos) g_valid++;
@@ -122,17 +151,17 @@ static void gen_form(const Form& f, int mode, bool thorough, FILE* out) {
     std::vector<char> kind(nops);
     size_t x = cix; int nmem = 0;
     for (size_t j = 0; j < nops; j++) { kind[j] = alts[j][x % alts[j].size()]; x /= alts[j].size(); if (kind[j] == 'm') nmem++; }
-    for (int v = 0; v < nvar; v++) {
-      // v0 distinct, v1 distinct (other ids / high vector ids / gph), v2 all free registers of a class equal, v3 last two free registers equal,
-      // v4/v5 (thorough) = v0/v1 with other immediates / decorations
+    // one request.  v = register assignment / decoration variant (see below); the overrides cross further dimensions:
+    //   immOv   (use = true) value of every immediate operand
+    //   maskOv  -1 variant's own decoration, 0 no mask, 1 {k} merge, 2 {k}{z}
+    //   bpos/bid  the free vector register operand number bpos (or the VSIB index when bpos == 100) gets the id bid
+    auto one = [&](int v, bool useImm, int64_t immOv, int maskOv, int bpos, int bid) {
       Inst in; in.f = f.id; in.n = f.name; in.m = mode;
       int slot = 0; bool bad = false;
       std::string firstClass; int firstId = -1, prevId = -1; std::string prevClass;
       int nfree = 0;
       for (size_t j = 0; j < nops; j++) if (kind[j] == 'r' && f.ops[j].fixed < 0 && !f.ops[j].pair) nfree++;
-      if ((v == 2 || v == 3) && nfree < 2 && !(v == 2 && nfree == 1)) continue;
-      if (v == 3 && nfree < 3) continue;
-      int freeSeen = 0;
+      int freeSeen = 0, vecSeen = 0;
       for (size_t j = 0; j < nops && !bad; j++) {
         const FOp& fo = f.ops[j];
         if (fo.pair) {
@@ -163,6 +192,7 @@ static void gen_form(const Form& f, int mode, bool thorough, FILE* out) {
           if (v == 2 && firstId >= 0 && ((isgp && firstClass[0] == 'g') || (isvec && firstClass[1] == 'm' && firstClass != "mm") || firstClass == c)) id = firstId;
           if (v == 3 && freeSeen == nfree && classLike && prevId >= 0) id = prevId;
           if (c == "gph") id %= 4;
+          if (isvec) { if (bpos == vecSeen) id = bid; vecSeen++; }
           if (j + 1 < nops && f.ops[j + 1].pair) id &= ~1;                        // mask pair lead
           if (firstId < 0) { firstId = id; firstClass = c; }
           prevId = id; prevClass = c;
@@ -170,7 +200,7 @@ static void gen_form(const Form& f, int mode, bool thorough, FILE* out) {
           slot++;
         } else if (kind[j] == 'i') {
           static const int64_t vals[6] = {1, 0x7F, 0xAA, 0x0F, 0x55, 3};
-          int64_t val = fo.iconst >= 0 ? fo.iconst : vals[v % 6];
+          int64_t val = fo.iconst >= 0 ? fo.iconst : (useImm ? immOv : vals[v % 6]);
           if (fo.ibits == 4) val &= 15;
           in.ops.push_back(I(val));
         } else {
@@ -183,21 +213,72 @@ static void gen_form(const Form& f, int mode, bool thorough, FILE* out) {
             o.d = 0x1000;
           } else {
             o.bt = nat; o.b = mode == 64 ? 14 : 6; o.d = (v % 2) ? 64 : 0;
-            if (!fo.vsib.empty()) { o.it = fo.vsib; o.i = vec_pool(mode, v, 5, evex); o.sh = v % 3; }
+            if (!fo.vsib.empty()) { o.it = fo.vsib; o.i = bpos == 100 ? bid : vec_pool(mode, v, 5, evex); o.sh = v % 3; }
             else if (v % 2) { o.it = nat; o.i = mode == 64 ? 13 : 7; o.sh = v % 4; }
             if (fo.bcst && v == 3) { o.bc = (fo.msz * 8) / fo.bcst; o.sz = fo.bcst / 8; if (o.bc < 2) { o.bc = 0; o.sz = fo.msz; } }
           }
           in.ops.push_back(o);
         }
       }
-      if (bad) continue;
+      if (bad) return;
       if (f.pk == "E") {
-        if (f.k && (v % 4) != 0) in.k = 1 + v;
-        if (f.k && f.z && (v % 4) == 2 && !(nops > 0 && kind[0] == 'm')) in.z = 1;
-        if (nmem == 0 && f.er && v == 1) in.er = 1;
-        else if (nmem == 0 && f.sae && v == 1) in.sae = 1;
+        if (maskOv < 0) {
+          if (f.k && (v % 4) != 0) in.k = 1 + v;
+          if (f.k && f.z && (v % 4) == 2 && !(nops > 0 && kind[0] == 'm')) in.z = 1;
+          if (nmem == 0 && f.er && v == 1) in.er = 1;
+          else if (nmem == 0 && f.sae && v == 1) in.sae = 1;
+        } else if (maskOv > 0) {
+          in.k = maskOv == 1 ? 2 : 5;
+          if (maskOv == 2) in.z = 1;
+        }
       }
       query_x86(in, out);
+    };
+    int nfree = 0, nvecfree = 0; bool hasImm = false, hasVsib = false;
+    for (size_t j = 0; j < nops; j++) {
+      if (kind[j] == 'r' && f.ops[j].fixed < 0 && !f.ops[j].pair) { nfree++; const std::string& c = f.ops[j].regs[0]; if (c == "xmm" || c == "ymm" || c == "zmm") nvecfree++; }
+      if (kind[j] == 'i' && f.ops[j].iconst < 0 && f.ops[j].ibits >= 8) hasImm = true;
+      if (kind[j] == 'm' && !f.ops[j].vsib.empty()) hasVsib = true;
+    }
+    for (int v = 0; v < nvar; v++) {
+      // v0 distinct, v1 distinct (other ids / high vector ids / gph), v2 all free registers of a class equal, v3 last two free registers equal,
+      // v4/v5 (thorough) = v0/v1 with other immediates / decorations
+      if ((v == 2 || v == 3) && nfree < 2 && !(v == 2 && nfree == 1)) continue;
+      if (v == 3 && nfree < 3) continue;
+      g_dim = "base";
+      one(v, false, 0, -1, -1, 0);
+    }
+    // ---- dimension: immediate value x masking x {distinct, all-same} (instruction-specific special cases are selected by the
+    //      immediate: vpternlog truth tables, and/or/test with 0 / -1, shift counts 0, blend / shuffle / permute selectors ...)
+    if (hasImm) {
+      static const int64_t imms[] = {0, 0xFF, -1, 0x11, 0x22, 0x44, 0x88, 0xCC, 0x0F, 0xF0, 0x55, 0xAA, 0x5A};
+      bool maskable = f.pk == "E" && f.k;
+      bool memDest = nops > 0 && kind[0] == 'm';
+      for (int assign = 0; assign < 2; assign++) {
+        if (assign == 1 && nfree < 2) continue;
+        int v = assign == 0 ? 0 : 2;
+        for (int mk = 0; mk < 3; mk++) {
+          if (mk > 0 && !maskable) continue;
+          if (mk == 2 && (!f.z || memDest)) continue;
+          size_t ni = sizeof(imms) / sizeof(imms[0]);
+          g_dim = "imm";
+          for (size_t q = 0; q < ni + 1; q++) {
+            // the full list for maskable (EVEX) forms in 64-bit mode; elsewhere 0 / 0xFF / -1 and the nibble patterns 0x0F 0xF0 0xAA
+            bool shortList = !maskable || mode == 32;
+            if (shortList && !(q < 3 || (mode == 64 && (q == 8 || q == 9 || q == 11)) || (maskable && q == 11))) continue;
+            if (mode == 32 && assign == 1) continue;
+            int64_t val = q < ni ? imms[q] : int64_t(g_rng->next() & 0xFF);
+            one(v, true, val, mk, -1, 0);
+          }
+        }
+      }
+    }
+    // ---- dimension: boundary register ids in every vector operand position, one at a time (others low): 7|8 REX/VEX.R, 15|16 the
+    //      first id that needs EVEX, 17, 31
+    if (mode == 64 && (f.pk == "V" || f.pk == "E") && (nvecfree > 0 || hasVsib) && (thorough || cix == 0 || hasVsib || nmem == 0)) {
+      static const int bids[] = {0, 7, 8, 15, 16, 17, 31};
+      for (int pos = 0; pos < nvecfree + (hasVsib ? 1 : 0); pos++)
+        for (int bid : bids) { g_dim = "bid"; one(0, false, 0, 0, pos < nvecfree ? pos : 100, bid); }
     }
   }
 }
@@ -251,6 +332,7 @@ int main(int argc, char** argv) {
     return 0;
   }
   bool thorough = argc > 4 && std::string(argv[4]) == "thorough";
+  vj::Rng rng(vj::env_seed()); g_rng = &rng;
   std::vector<Form> forms = load_forms(argv[2]);
   for (const Form& f : forms) {
     gen_form(f, 64, thorough, out);
